@@ -24,8 +24,8 @@ Lemma build_chain_shape :
                    ("num_canceled", "num_canceled"); ("num_missing", "len(missing_jobs)")].
 Proof. repeat split; reflexivity. Qed.
 Lemma show_chain_shape :
-  show_chain = [("is_successful", "num_successful"); ("is_failed", "num_failed")] /\
-  show_else = Some ("is_canceled", "num_canceled").
+  show_chain = [("is_successful", "Num successful"); ("is_failed", "Num failed")] /\
+  show_else = Some ("is_canceled", "Num canceled").
 Proof. split; reflexivity. Qed.
 Lemma bytype_chain_shape :
   bytype_chain = [("is_successful", "successful"); ("is_failed", "failed"); ("is_canceled", "canceled")] /\
